@@ -7,6 +7,7 @@ import Tapeverif.Model.Auth
 import Tapeverif.Model.Tools
 import Tapeverif.Model.SigPure
 import Tapeverif.Model.Asm
+import Tapeverif.Model.Lex
 /-! Line-protocol driver: one request per line on stdin, one reply per line on stdout. -/
 open TV
 
@@ -318,6 +319,13 @@ def handle (line : String) : String :=
   | ["REENC", h] => match ofHex h with
       | some b => match Asm.decodeAll b with
           | some is => hx (Asm.encodeSeq is)
+          | none => "ERR"
+      | none => "bad-op"
+  | ["SYMS", h] => match ofHex h with
+      -- the tokenizer on an ASCII source given in hex: symbols in hex, words of a symbol joined by one space
+      | some b => match TV.Lex.symbols (b.map fun x => Char.ofNat x.toNat) with
+          | some syms => "OK " ++ ",".intercalate (syms.map fun ws =>
+              toHex ((" ".intercalate (ws.map String.ofList)).toList.map fun c => UInt8.ofNat c.toNat))
           | none => "ERR"
       | none => "bad-op"
   | ["LIST", h] => match ofHex h with
